@@ -189,6 +189,53 @@ def stream_check_plurals(chk, count):
     chk.coverage['check_plurals_tags_seen'] = dict(tagcount)
     return dis, metas
 
+# ------------------------------------------------------------------ the reference regex semantics against Python's `re`
+
+def gen_search_subject(rng):
+    """subjects for the header pattern: grammar-directed header values, their one-to-three-edit mutants, repeated and
+    overlapping occurrences, near-miss characters for every class, partial prefixes"""
+    r = rng.random()
+    if r < 0.45:
+        s = gen_header_value(rng)
+    elif r < 0.6:
+        s = gen_header_value(rng) + rng.choice(['', ' ', ';', 'n']) + gen_header_value(rng)
+    elif r < 0.8:
+        pieces = ['nplurals=', 'nplurals', 'plural=', 'plural', ';', ';;', ' ', '\t', '1', '0', '9', '10', 'n', '=', 'x', '\n', '\xa0', '\u0663']
+        s = ''.join(rng.choice(pieces) for _ in range(rng.randint(1, 9)))
+    else:
+        s = 'nplurals=' + rng.choice(['1', '2', '10', '0', '01', '', '9' * 5]) + rng.choice([';', '', ';;', ' ;']) + \
+            rng.choice(['', ' ', '\t \t', '\n', '\x0b']) + rng.choice(['plural=', 'plural =', 'Plural=', 'plural']) + \
+            rng.choice(['n', '', ';', 'n;', 'n;;', 'n ;x', ' ', 'n>1;nplurals=1; plural=0'])
+    for _ in range(rng.choice([0, 0, 1, 1, 2, 3])):
+        s = P.mutate(rng, s)
+    return s
+
+def stream_header_search(chk, count):
+    """`Spec.PluralFormsRe.search` on the dumped tree (native driver) vs the LIVE compiled pattern's own method"""
+    from lib import gettext as lg
+    fn = lg._parse_plural_forms
+    subjects = ['', 'nplurals=1; plural=0', 'nplurals=1; plural=0;', 'nplurals=1; plural=0;;', 'nplurals=2; plural=(; nplurals=1; plural=0;',
+                'nplurals=0; plural=0;', 'nplurals=12;\t \tplural= n ;x', 'nplurals=1;plural=;', 'xnplurals=1;plural=n', 'nplurals=1;plural=n\n']
+    while len(subjects) < count:
+        subjects.append(gen_search_subject(chk.rng))
+    lines, outs = [], []
+    hits = 0
+    for s in subjects:
+        lines.append('checkplurals research ' + H.hexs(s))
+        try:
+            m = fn(s)
+            if m is None:
+                outs.append('none')
+            else:
+                hits += 1
+                g = lambda k: 'N' if m.group(k) is None else H.hexs(m.group(k))
+                outs.append(f'ok {H.hexs(s[:m.start()])} {H.hexs(m.group(0))} {H.hexs(s[m.end():])} {g(1)} {g(2)}')
+        except Exception as exc:
+            outs.append('err ' + type(exc).__name__)
+    dis, _ = chk.stream('header-search', lines, outs)
+    chk.coverage['header_search'] = {'subjects': len(subjects), 'matched': hits, 'unmatched': len(subjects) - hits}
+    return dis
+
 # ------------------------------------------------------------------ falsifier: truth of every emitted claim, recomputed on the real code
 
 def brute_image(ex, upto_period):
@@ -292,6 +339,36 @@ def falsify_case(meta):
         correct = lang.get_plural_forms() or []
         if pf in correct and any(nm.startswith('unusual') for nm in names):
             return replay('registry-declaration-called-unusual')
+    # unusual iff: the language is known and no registry declaration has this nplurals, or exactly one has and the declared
+    # expression differs from it at an index the window reaches (reference parser/evaluator on both)
+    if lang is not None:
+        correct = lang.get_plural_forms()
+        if correct is not None:
+            same_n = []
+            ok = True
+            for c in correct:
+                mc = re.fullmatch(r'nplurals=([1-9][0-9]*);[ \t]*plural=([^;]+);?', c)
+                if mc is None:
+                    ok = False; break
+                try:
+                    rc = P.ref_parse(mc.group(2))
+                except P.RefSyntaxError:
+                    ok = False; break
+                if int(mc.group(1)) == n:
+                    same_n.append(rc)
+            if ok:
+                reach = 200 if first_bad is None else first_bad[0]
+                if len(same_n) == 0:
+                    want = True
+                elif len(same_n) == 1:
+                    want = any(P.ref_eval(ref, i, 32) != P.ref_eval(same_n[0], i, 32) for i in range(reach))
+                else:
+                    want = False
+                got = sum(1 for nm in names if nm.startswith('unusual'))
+                if (got > 0) != want or got > 1:
+                    return replay('unusual-tag-iff', expected_unusual=want, unusual_tags=got, registry=correct)
+    elif any(nm.startswith('unusual') for nm in names):
+        return replay('unusual-tag-iff', expected_unusual=False, registry=None)
     return None
 
 def _safe(ex, n):
